@@ -62,9 +62,16 @@ def replaceCharref (s : Str) : Str :=
       | some v => v
       | none => '&' :: s
 
+/-- `mistune.util._replace_known_charref`: a name that is not an entity name stays as written (the whole match is
+`&` followed by group 1) -/
+def replaceKnownCharref (s : Str) : Str :=
+  match s with
+  | '#' :: _ => replaceCharref s
+  | _ => if (lookupEntity s).isSome then replaceCharref s else '&' :: s
+
 /-- `mistune.util.unescape(s)`; `charrefRe` is `mistune.util._charref_re` -/
 def unescapeWith (charrefRe : Rx) (s : Str) : Str :=
   if !s.contains '&' then s
-  else Py.reSub charrefRe (fun a mt => replaceCharref ((Py.groupStr a mt 1).getD [])) s
+  else Py.reSub charrefRe (fun a mt => replaceKnownCharref ((Py.groupStr a mt 1).getD [])) s
 
 end Mistune
